@@ -73,3 +73,41 @@ Definition run_c08_dsep (s : sx) : sx :=
       end
   | _ => bad_request
   end.
+
+(* [nodes edges] -> get_immoralities() as a list of pairs (unordered; the harness sorts each pair) *)
+Definition run_c08_immor (s : sx) : sx :=
+  match s with
+  | SL [sn; se] =>
+      match dec_graph sn se with
+      | Some g => sx_ok (of_list (of_pair of_nat of_nat) (immoralities g))
+      | None => bad_request
+      end
+  | _ => bad_request
+  end.
+
+(* [nodes edges op ns es] -> [nodes' edges'] : one mutator applied to the graph value.
+   op 0 remove_edges_from es | 1 remove_nodes_from ns | 2 do(ns, inplace) | 3 add_nodes_from ns |
+      4 add_edges_from es | 5 clear_edges | 6 clear *)
+Definition run_c08_edit (s : sx) : sx :=
+  match s with
+  | SL [sn; se; sop; sns; ses] =>
+      match dec_graph sn se, sx_nat sop, sx_list sx_nat sns, sx_list (sx_pair sx_nat sx_nat) ses with
+      | Some g, Some op, Some ns, Some es =>
+          let r := match op with
+                   | 0 => Some (remove_edges g es)
+                   | 1 => Some (fold_left remove_node ns g)
+                   | 2 => Some (do_graph g ns)
+                   | 3 => Some (add_nodes g ns)
+                   | 4 => Some (add_edges g es)
+                   | 5 => Some (clear_edges g)
+                   | 6 => Some {| nodes := []; edges := [] |}
+                   | _ => None
+                   end in
+          match r with
+          | Some g' => sx_ok (SL [of_list of_nat (nodes g'); of_list (of_pair of_nat of_nat) (edges g')])
+          | None => sx_err 3
+          end
+      | _, _, _, _ => bad_request
+      end
+  | _ => bad_request
+  end.
